@@ -1517,9 +1517,9 @@ pub fn check(check: &mut Check) {
     no_restore_over_capacity: check.findings.open_entries("C17").iter().any(|f| f.id.contains("restore")),
   };
   let cases = match focus {
-    Focus::C17 => ctx.tier.pick(4_000u64, 300_000u64),
-    Focus::C15 => ctx.tier.pick(5_000u64, 300_000u64),
-    _ => ctx.tier.pick(8_000u64, 600_000u64),
+    Focus::C17 => ctx.tier.pick(3_000u64, 300_000u64),
+    Focus::C15 => ctx.tier.pick(4_000u64, 300_000u64),
+    _ => ctx.tier.pick(6_000u64, 600_000u64),
   };
   let max_ops = ctx.tier.pick(45usize, 90usize);
   let p2 = prop.clone();
